@@ -200,7 +200,10 @@ def b_configs(job):
                 continue
             fam.add_run("s", "embed:" + tgt, "cfg", _with_logic(G.preamble(g, []), tgt) + body)
             continue
-        fam.add_run("s", cfg, "cfg", G.preamble(g, _opts(cfg)) + body, timeout=job.get("timeout", 20))
+        # the pure lookahead engine is known not to return on many instances (KF12): a shorter bound keeps the
+        # check affordable; every other configuration gets the full bound
+        to = min(job.get("timeout", 20), 6) if cfg == "la" else job.get("timeout", 20)
+        fam.add_run("s", cfg, "cfg", G.preamble(g, _opts(cfg)) + body, timeout=to)
     return _result(fam, job)
 
 BUILDERS = {"answers": b_answers, "models": b_models, "incremental": b_incremental, "configs": b_configs}
